@@ -338,9 +338,10 @@ pub fn scale_shapes(tier: Tier) -> Vec<Shape> {
             let fixed_words = crate::model::enc(&base).len();
             let max_bytes = (0xFFFF - fixed_words) * 4; // the longest string that still fits (its NUL takes the spare word)
             let mut ls = lens.clone();
-            ls.extend([max_bytes, max_bytes - 1, max_bytes - 4]);
+            // max_bytes .. max_bytes + 3 all give a word count of exactly 65535 (the terminator shares the last word)
+            ls.extend([max_bytes, max_bytes - 1, max_bytes - 4, max_bytes + 1, max_bytes + 2, max_bytes + 3]);
             for l in ls {
-                if l > max_bytes {
+                if l > max_bytes + 3 {
                     continue;
                 }
                 let ascii: String = (0..l).map(|i| (b'a' + (i % 26) as u8) as char).collect();
